@@ -3364,7 +3364,11 @@ func (e *msgpackEncDriverBytes) writeNilMap() {
 }
 
 func (e *msgpackEncDriverBytes) writeNilBytes() {
-	e.writeNilOr(mpFixStrMin)
+	if e.h.NilCollectionToZeroLength {
+		e.EncodeStringBytesRaw(zeroByteSlice)
+	} else {
+		e.w.writen1(mpNil)
+	}
 }
 
 func (e *msgpackEncDriverBytes) writeContainerLen(ct msgpackContainerType, l int) {
@@ -7421,7 +7425,11 @@ func (e *msgpackEncDriverIO) writeNilMap() {
 }
 
 func (e *msgpackEncDriverIO) writeNilBytes() {
-	e.writeNilOr(mpFixStrMin)
+	if e.h.NilCollectionToZeroLength {
+		e.EncodeStringBytesRaw(zeroByteSlice)
+	} else {
+		e.w.writen1(mpNil)
+	}
 }
 
 func (e *msgpackEncDriverIO) writeContainerLen(ct msgpackContainerType, l int) {
